@@ -680,3 +680,158 @@ impl TryRngCore for FallibleSource {
         Ok(())
     }
 }
+
+// ---------------------------------------------------------------------------
+// Solved timer scripts: one collection whose documented result is a chosen rare
+// value. As long as no measurement is stuck, the collected word is an affine
+// function over GF(2) of the pool before it and of the bits of the deltas, so
+// readings that produce a given word (2^-64 for a random script) are found by
+// Gaussian elimination on the reference model.
+
+#[derive(Clone, Copy, Debug, PartialEq, Eq)]
+pub enum Target {
+    /// the whole word
+    Exact(u64),
+    /// the upper / lower 32 bits (the other half is left to chance)
+    Upper(u32),
+    Lower(u32),
+    /// upper half equals lower half
+    EqualHalves,
+}
+
+impl Target {
+    pub fn name(&self) -> &'static str {
+        match self {
+            Target::Exact(0) => "exact_zero",
+            Target::Exact(u64::MAX) => "exact_ones",
+            Target::Exact(_) => "exact_value",
+            Target::Upper(0) => "upper_zero",
+            Target::Upper(_) => "upper_value",
+            Target::Lower(0) => "lower_zero",
+            Target::Lower(_) => "lower_value",
+            Target::EqualHalves => "equal_halves",
+        }
+    }
+    /// (mask, value) constraints on g(word), where g is the identity or word ^ (word >> 32)
+    fn met(&self, w: u64) -> bool {
+        match *self {
+            Target::Exact(v) => w == v,
+            Target::Upper(v) => (w >> 32) as u32 == v,
+            Target::Lower(v) => w as u32 == v,
+            Target::EqualHalves => (w >> 32) as u32 == w as u32,
+        }
+    }
+    /// residual that must become zero (linear in the word)
+    fn residual(&self, w: u64) -> u64 {
+        match *self {
+            Target::Exact(v) => w ^ v,
+            Target::Upper(v) => (w >> 32) ^ v as u64,
+            Target::Lower(v) => (w & 0xffff_ffff) ^ v as u64,
+            Target::EqualHalves => (w >> 32) ^ (w & 0xffff_ffff),
+        }
+    }
+}
+
+struct SliceReadings<'a>(&'a [u64], usize);
+impl<'a> Readings for SliceReadings<'a> {
+    fn read(&mut self) -> u64 {
+        // beyond the slice (a stuck measurement made the collection longer than planned):
+        // keep the clock running; the caller rejects the attempt by the count of readings
+        let v = if self.1 < self.0.len() { self.0[self.1] } else { self.0[self.0.len() - 1].wrapping_add(7919 * (self.1 - self.0.len() + 1) as u64 * (self.1 as u64 % 5 + 1)) };
+        self.1 += 1;
+        v
+    }
+}
+
+/// readings of one collection (1 + 3·(rounds+1) of them) from its deltas
+fn readings_from_deltas(start: u64, deltas: &[u32]) -> Vec<u64> {
+    let mut v = Vec::with_capacity(1 + 3 * deltas.len());
+    let mut t = start;
+    v.push(t);
+    for &d in deltas {
+        v.push(t.wrapping_add(1)); // loop-count reading
+        t = t.wrapping_add(d as u64);
+        v.push(t); // the time stamp
+        v.push(t.wrapping_add(2)); // loop-count reading
+    }
+    v
+}
+
+/// Readings for ONE collection of a generator whose pool is `pool0` and whose round
+/// count is `rounds`, starting at time `start`, such that the documented result meets
+/// `target` and no measurement is stuck. None if no solution was found in a few tries.
+pub fn solve_collection(p: &mut Prng, pool0: u64, rounds: u8, start: u64, target: Target) -> Option<Vec<u64>> {
+    use crate::models::jitter::{CollectStats, Jitter};
+    let n = rounds as usize + 1;
+    let run = |deltas: &[u32]| -> (u64, u32, usize) {
+        let rd = readings_from_deltas(start, deltas);
+        let mut m = Jitter { pool: pool0, rounds, half_pending: false };
+        let mut st = CollectStats::default();
+        let mut cur = SliceReadings(&rd, 0);
+        let w = m.collect(&mut cur, &mut st);
+        (w, st.stuck, cur.1)
+    };
+    for _try in 0..12 {
+        // base deltas: an ordinary jittery clock, 2^10 .. 2^21 ns per measurement
+        let base: Vec<u32> = (0..n).map(|_| 1024 + p.below(1 << 21) as u32).collect();
+        let (w0, stuck0, used0) = run(&base);
+        if stuck0 != 0 || used0 != 1 + 3 * n {
+            continue;
+        }
+        // free variables: bits 0..30 of the last (up to) four deltas (the first delta of a
+        // collection only primes the stuck test but is folded as well)
+        let nd = n.min(4);
+        let vars: Vec<(usize, u32)> = (0..nd).flat_map(|k| (0..31u32).map(move |b| (n - 1 - k, b))).collect();
+        let cols: Vec<u64> = vars.iter().map(|&(i, b)| {
+            let mut d = base.clone();
+            d[i] ^= 1 << b;
+            target.residual(run(&d).0) ^ target.residual(w0)
+        }).collect();
+        // solve  XOR_{v in x} cols[v] = residual(w0)  (<= 64 equations, <= 96 unknowns)
+        let rhs = target.residual(w0);
+        let nv = vars.len();
+        let mut rows: Vec<(u128, bool)> = (0..64).map(|e| {
+            let mut m = 0u128;
+            for (v, c) in cols.iter().enumerate() { if (c >> e) & 1 == 1 { m |= 1u128 << v; } }
+            (m, (rhs >> e) & 1 == 1)
+        }).collect();
+        let mut piv_of_row: Vec<Option<usize>> = vec![None; 64];
+        let mut rank = 0usize;
+        for v in 0..nv {
+            if let Some(pr) = (rank..64).find(|&r| (rows[r].0 >> v) & 1 == 1) {
+                rows.swap(rank, pr);
+                let pivot = rows[rank];
+                for r in 0..64 {
+                    if r != rank && (rows[r].0 >> v) & 1 == 1 {
+                        rows[r].0 ^= pivot.0;
+                        rows[r].1 ^= pivot.1;
+                    }
+                }
+                piv_of_row[rank] = Some(v);
+                rank += 1;
+                if rank == 64 { break; }
+            }
+        }
+        if rows[rank..].iter().any(|r| r.0 == 0 && r.1) {
+            continue; // inconsistent for this base
+        }
+        // free variables get random values (many different solutions per base)
+        let mut x: u128 = ((p.u64() as u128) << 64 | p.u64() as u128) & ((1u128 << nv) - 1);
+        for r in 0..rank { if let Some(v) = piv_of_row[r] { x &= !(1u128 << v); } }
+        for r in 0..rank {
+            if let Some(v) = piv_of_row[r] {
+                let others = rows[r].0 & !(1u128 << v);
+                let parity = ((others & x).count_ones() & 1 == 1) ^ rows[r].1;
+                if parity { x |= 1u128 << v; }
+            }
+        }
+        let mut d = base.clone();
+        for (v, &(i, b)) in vars.iter().enumerate() { if (x >> v) & 1 == 1 { d[i] ^= 1 << b; } }
+        if d.iter().any(|&k| k == 0) { continue; }
+        let (w, stuck, used) = run(&d);
+        if stuck == 0 && used == 1 + 3 * n && target.met(w) {
+            return Some(readings_from_deltas(start, &d));
+        }
+    }
+    None
+}
